@@ -146,9 +146,55 @@ type Doc struct {
 }
 
 // genDoc draws a valid document in the given format.
-func genDoc(r *prng.Rand, formatText bool, maxTop int) Doc {
+func genDoc(r *prng.Rand, formatText bool, maxTop int) Doc { return genDocBig(r, formatText, maxTop, false) }
+
+// genDocBig is genDoc that, when big is set, sometimes includes a lob well beyond 64 KiB (only scenarios whose cost
+// per document does not grow with the square of its length ask for it).
+func genDocBig(r *prng.Rand, formatText bool, maxTop int, big bool) Doc {
 	o := gen.Swarm(r)
 	vals := gen.Sanitize(gen.Doc(r, o, maxTop))
+	if big && r.Chance(1, 40) {
+		// a lob well beyond 64 KiB inside nested containers, with values after it at every level (long skips)
+		n := []int{65536, 65537, 70000, 131073, 200000}[r.Intn(5)]
+		b := make([]byte, n)
+		for i := range b {
+			b[i] = byte(i*7 + n)
+		}
+		kind := []model.Kind{model.Blob, model.Clob}[r.Intn(2)]
+		if kind == model.Clob {
+			for i := range b {
+				b[i] = 'a' + b[i]%26
+			}
+		}
+		inner := model.NewSeq(model.List, model.NewInt(1), model.NewLob(kind, b), model.NewInt(2))
+		outer := model.NewSeq(model.Sexp, inner, model.NewInt(3), model.NewSeq(model.List, model.NewString("after")))
+		at := r.Intn(len(vals) + 1)
+		vals = append(vals[:at], append([]*model.Value{outer}, vals[at:]...)...)
+	}
+	if len(vals) > 0 && r.Chance(1, 16) {
+		// one value buried 30..70 containers deep (per-level reader state beyond 32 and 64 levels)
+		k := r.Intn(len(vals))
+		v := vals[k]
+		for d := r.Range(30, 70); d > 0; d-- {
+			kind := []model.Kind{model.List, model.Sexp, model.Struct}[r.Intn(3)]
+			if kind == model.Struct {
+				v.Field = &model.Sym{Text: []string{"a", "b", "name"}[r.Intn(3)], HasText: true}
+			} else {
+				v.Field = nil
+			}
+			w := model.NewSeq(kind, v)
+			if r.Chance(1, 3) {
+				sib := model.NewInt(int64(d))
+				if kind == model.Struct {
+					sib.Field = &model.Sym{Text: "z", HasText: true}
+				}
+				w.Kids = append(w.Kids, sib)
+			}
+			v = w
+		}
+		v.Field = nil
+		vals[k] = v
+	}
 	if formatText {
 		return Doc{Values: vals, Format: "text", Out: render.Text(render.Values(vals), render.SwarmText(r.Fork()))}
 	}
